@@ -5,7 +5,7 @@
 (* every overload form, grouped by identical result; every group must be   *)
 (* the result StringOps defines (so all forms are forced to agree).        *)
 (***************************************************************************)
-EXTENDS StringOps, KnownStr, TraceLib, Json, IOUtils, TLC
+EXTENDS StringOps, Hash, KnownStr, TraceLib, Json, IOUtils, TLC
 
 TraceLog == ndJsonDeserialize(IOEnv.TRACE)
 OutFile  == IOEnv.OUT
@@ -146,6 +146,32 @@ BoolGroupOk(ev, g) ==
             [] g.k = "from" -> g.v = (IF v = 1 THEN TrueText ELSE FalseText)
             [] OTHER -> FALSE
 
+
+(* ---- X02: beyond the listed properties - exact hash values (FNV-1a in the width of size_t), views, copies, *)
+(* c_str(substitute), user-defined literals                                                                  *)
+HashGroupOk(ev, g) ==
+    /\ Ok(g)
+    /\ CASE g.k = "hash"   -> g.v = Fnv1aLogged(ev.s, ev.bits, ev.sx = 1)
+         [] g.k = "hash_i" -> g.v = Fnv1aLogged(FoldSeq(ev.s), ev.bits, ev.sx = 1)
+         [] OTHER -> FALSE
+(* a view is the requested window INTO the object's own storage (offset = start), nothing is copied *)
+ViewGroupOk(ev, g) ==
+    LET n == Len(ev.s)
+        len == IF ev.len < 0 THEN n - ev.start ELSE ev.len IN
+    /\ Ok(g)
+    /\ CASE g.k = "view" -> g.v.b = SubSeq(ev.s, ev.start + 1, ev.start + len) /\ g.v.off = ev.start
+         [] g.k = "copy" -> g.v = ev.s
+         [] g.k = "term" -> g.v = 0
+         [] OTHER -> FALSE
+(* c_str(substitute) is the substitute exactly for empty contents, otherwise the terminated contents themselves *)
+CstrGroupOk(ev, g) ==
+    /\ Ok(g)
+    /\ CASE g.k = "cstr"  -> IF Len(ev.s) = 0 THEN g.v.sub = 1 /\ g.v.z = ev.sub
+                             ELSE g.v.sub = 0 /\ g.v.own = 1 /\ g.v.z = ev.s
+         [] g.k = "cstr0" -> g.v.own = 1 /\ g.v.z = ev.s
+         [] OTHER -> FALSE
+LiteralGroupOk(ev, g) == Ok(g) /\ g.k = "lit" /\ g.v = ev.s
+
 GroupOk(ev, g) ==
     CASE ev.e = "cmp" -> CmpGroupOk(ev, g)
       [] ev.e = "cmpn" -> CmpNGroupOk(ev, g)
@@ -165,6 +191,10 @@ GroupOk(ev, g) ==
       [] ev.e = "access" -> AccessGroupOk(ev, g)
       [] ev.e = "fill" -> FillGroupOk(ev, g)
       [] ev.e = "tobool" -> BoolGroupOk(ev, g)
+      [] ev.e = "hashv" -> HashGroupOk(ev, g)
+      [] ev.e = "view" -> ViewGroupOk(ev, g)
+      [] ev.e = "cstr" -> CstrGroupOk(ev, g)
+      [] ev.e = "literal" -> LiteralGroupOk(ev, g)
       [] OTHER -> FALSE
 
 EventOk(ev) ==
@@ -178,10 +208,11 @@ PropOfOp(e) ==
     ELSE IF e \in {"substr", "leftright", "trim", "bafl"} THEN <<"C08">>
     ELSE IF e \in {"split", "tokenize", "replace"} THEN <<"C09">>
     ELSE IF e \in {"access", "fill", "tobool"} THEN <<"X01">>
+    ELSE IF e \in {"hashv", "view", "cstr", "literal"} THEN <<"X02">>
     ELSE <<"HARNESS">>
 
 OpNames == {"cmp", "cmpn", "cmpw", "cmpsized", "cmpmatrix", "case", "find", "findlast", "affix", "substr", "leftright",
-            "trim", "bafl", "split", "tokenize", "replace", "access", "fill", "tobool"}
+            "trim", "bafl", "split", "tokenize", "replace", "access", "fill", "tobool", "hashv", "view", "cstr", "literal"}
 
 TPlatform == Ev.e = "Platform" /\ UNCHANGED <<book, ndec>>
 
